@@ -464,7 +464,7 @@ def clang_features(progs):
         defs = dict(p)
         padded = set()
         for n, fs in p:
-            offs, size, al, _ = sp[n]
+            offs, size, al = sp[n][:3]
             if fs:
                 last = fs[-1]
                 lsz = _size_of(last, sp)
